@@ -13,11 +13,12 @@
 
 use crate::util::*;
 use poulpy_core::layouts::{
-    Base2K, Degree, Dnum, Dsize, GLWESecret, GLWETensor, GLWETensorKey, GLWETensorKeyLayout, LWEInfos, Rank, TorusPrecision,
+    Base2K, Degree, Dnum, Dsize, GLWESecret, GLWETensor, GLWETensorKey, GLWETensorKeyLayout,
+    LWEInfos, Rank, TorusPrecision,
 };
 use poulpy_core::{
-    EncryptionLayout, GLWEMulConst, GLWEMulPlain, GLWETensorKeyEncryptSk, GLWETensoring, ScratchTakeCore,
-    layouts::GLWETensorKeyPreparedFactory,
+    EncryptionLayout, GLWEMulConst, GLWEMulPlain, GLWETensorKeyEncryptSk, GLWETensoring,
+    ScratchTakeCore, layouts::GLWETensorKeyPreparedFactory,
 };
 use poulpy_hal::layouts::{Module, Scratch, ZnxInfos, ZnxView, ZnxViewMut};
 use poulpy_hal::source::Source;
@@ -50,9 +51,17 @@ fn floor_to(x: &IBig, s: usize) -> IBig {
 }
 
 /// column values scaled by 2^(size*b), truncated (floor) to `k_eff` fractional bits: the operand at its effective precision
-fn masked_col(g: &poulpy_hal::layouts::VecZnx<Vec<u8>>, col: usize, b: usize, k_eff: usize) -> Poly {
+fn masked_col(
+    g: &poulpy_hal::layouts::VecZnx<Vec<u8>>,
+    col: usize,
+    b: usize,
+    k_eff: usize,
+) -> Poly {
     let drop = g.size() * b - k_eff;
-    col_vals(g, col, b).iter().map(|x| floor_to(x, drop)).collect()
+    col_vals(g, col, b)
+        .iter()
+        .map(|x| floor_to(x, drop))
+        .collect()
 }
 
 /// clear secret with s[0] = 1 and the products s_i * s_j by the schoolbook negacyclic product
@@ -171,12 +180,22 @@ struct ColVerdict {
 }
 
 /// compares `got` (scaled 2^r_bits) with `want` (scaled 2^l_want) modulo 1; tolerance in units of 2^-r_bits
-fn compare(got: &Poly, r_bits: usize, want: &Poly, l_want: usize, tol_units: &IBig) -> Option<(f64, usize)> {
+fn compare(
+    got: &Poly,
+    r_bits: usize,
+    want: &Poly,
+    l_want: usize,
+    tol_units: &IBig,
+) -> Option<(f64, usize)> {
     let l = r_bits.max(l_want) + 2;
     let w = pshl(want, l - l_want);
     let (worst, at) = max_torus_err(got, r_bits, &w, l);
     let tol: IBig = tol_units << (l - r_bits);
-    if worst > tol { Some((approx_units(&worst, l - r_bits), at)) } else { None }
+    if worst > tol {
+        Some((approx_units(&worst, l - r_bits), at))
+    } else {
+        None
+    }
 }
 
 fn classify(c: usize, b: usize, b_res: usize, r_bits: usize) -> Value {
@@ -232,12 +251,24 @@ pub fn cmax(res_size: usize, a_size: usize, b_size: usize, b: usize) -> usize {
 /// 2*base2k+2, every offset within 2 of a multiple of base2k, every 7th (thorough: every 3rd), and cmax
 pub fn offsets(cmax: usize, b: usize, tier: Tier) -> Vec<usize> {
     (0..=cmax)
-        .filter(|&c| b <= 17 || c <= 2 * b + 2 || c % b <= 2 || c % b >= b - 2 || c % (if tier.is_thorough() { 3 } else { 7 }) == 0 || c == cmax)
+        .filter(|&c| {
+            b <= 17
+                || c <= 2 * b + 2
+                || c % b <= 2
+                || c % b >= b - 2
+                || c % (if tier.is_thorough() { 3 } else { 7 }) == 0
+                || c == cmax
+        })
         .collect()
 }
 
-pub fn exec_tensor<B: Bk>(c: &TCase, only: Option<(usize, usize)>, seed: u64, tier: Tier, rec: &mut Rec)
-where
+pub fn exec_tensor<B: Bk>(
+    c: &TCase,
+    only: Option<(usize, usize)>,
+    seed: u64,
+    tier: Tier,
+    rec: &mut Rec,
+) where
     Module<B>: HalAll<B> + CoreAll<B>,
     Scratch<B>: ScratchTakeCore<B>,
 {
@@ -261,13 +292,21 @@ where
     let (a_bits, b_bits) = (c.a_size * c.b, c.b_size * c.b);
     let l = a_bits + b_bits;
     let r_bits = c.res_size * c.b_res;
-    let ac: Vec<Poly> = (0..cols).map(|i| masked_col(a.data(), i, c.b, c.a_k)).collect();
-    let bc: Vec<Poly> = (0..cols).map(|i| masked_col(b_ct.data(), i, c.b, c.b_k)).collect();
+    let ac: Vec<Poly> = (0..cols)
+        .map(|i| masked_col(a.data(), i, c.b, c.a_k))
+        .collect();
+    let bc: Vec<Poly> = (0..cols)
+        .map(|i| masked_col(b_ct.data(), i, c.b, c.b_k))
+        .collect();
     // exact column products, scaled by 2^l
     let mut want_cols: Vec<Poly> = vec![pzero(c.n); ncols_t];
     for i in 0..cols {
         for j in i..cols {
-            want_cols[tidx(cols, i, j)] = if i == j { pmul(&ac[i], &bc[i]) } else { padd(&pmul(&ac[i], &bc[j]), &pmul(&ac[j], &bc[i])) };
+            want_cols[tidx(cols, i, j)] = if i == j {
+                pmul(&ac[i], &bc[i])
+            } else {
+                padd(&pmul(&ac[i], &bc[j]), &pmul(&ac[j], &bc[i]))
+            };
         }
     }
     // exact phases of the (masked) operands and their product
@@ -280,10 +319,18 @@ where
     let want_phase = pmul(&pa, &pb);
     let g_units = guard_units(c.n, c.a_size.min(c.b_size), c.b);
     let mut reported: Vec<String> = vec![];
-    let bytes = m.glwe_tensor_apply_tmp_bytes(&tensor_alloc(c.n, c.b_res, c.res_size, c.rank), &a, &b_ct)
-        .max(m.glwe_tensor_square_apply_tmp_bytes(&tensor_alloc(c.n, c.b_res, c.res_size, c.rank), &a))
+    let bytes = m
+        .glwe_tensor_apply_tmp_bytes(&tensor_alloc(c.n, c.b_res, c.res_size, c.rank), &a, &b_ct)
+        .max(m.glwe_tensor_square_apply_tmp_bytes(
+            &tensor_alloc(c.n, c.b_res, c.res_size, c.rank),
+            &a,
+        ))
         + MIB;
-    for cnv in offsets(cmax(c.res_size, c.a_size, c.b_size, c.b), c.b, if only.is_some() { Tier::Thorough } else { tier }) {
+    for cnv in offsets(
+        cmax(c.res_size, c.a_size, c.b_size, c.b),
+        c.b,
+        if only.is_some() { Tier::Thorough } else { tier },
+    ) {
         for g in 0..2usize {
             if let Some(o) = only {
                 if o != (cnv, g) {
@@ -300,12 +347,17 @@ where
                     return;
                 }
                 reported.push(sig);
-                let d = json!({"op": op, "backend": B::NAME, "kind": kind, "case": c, "inner": inner});
+                let d =
+                    json!({"op": op, "backend": B::NAME, "kind": kind, "case": c, "inner": inner});
                 rec.fail(merge(merge(d, classify(cnv, c.b, c.b_res, r_bits)), extra));
             };
             let mut res = tensor_alloc(c.n, c.b_res, c.res_size, c.rank);
             garbage(bytes_of(res.data_mut().raw_mut()), g);
-            let out = guarded(|| with_scratch::<B, _>(bytes, g, |s| m.glwe_tensor_apply(cnv, &mut res, &a, c.a_k, &b_ct, c.b_k, s)));
+            let out = guarded(|| {
+                with_scratch::<B, _>(bytes, g, |s| {
+                    m.glwe_tensor_apply(cnv, &mut res, &a, c.a_k, &b_ct, c.b_k, s)
+                })
+            });
             rec.evals(1);
             if let Err(msg) = out {
                 fail(rec, "glwe_tensor_apply", "panic", json!({"panic": msg}));
@@ -313,7 +365,11 @@ where
             }
             // ---- columns
             let exact = r_bits + cnv >= l;
-            let regime = if exact { Regime::Exact } else { Regime::Truncating };
+            let regime = if exact {
+                Regime::Exact
+            } else {
+                Regime::Truncating
+            };
             let mut verdict: Option<ColVerdict> = None;
             let mut tol_sum = IBig::from(0);
             for i in 0..cols {
@@ -373,7 +429,11 @@ where
                 }
             }
             if let Some(v) = verdict {
-                let kind = if v.regime == Regime::Exact { "wrong_value" } else { "noise_too_large" };
+                let kind = if v.regime == Regime::Exact {
+                    "wrong_value"
+                } else {
+                    "noise_too_large"
+                };
                 fail(
                     rec,
                     "glwe_tensor_apply",
@@ -395,14 +455,27 @@ where
                 fill_class(acc.data_mut(), c.b_res, 0, &mut rng);
                 let acc0: Vec<i64> = acc.data().raw().to_vec();
                 let out = guarded(|| {
-                    with_scratch::<B, _>(bytes, 1 - g, |s| m.glwe_tensor_apply_add_assign(cnv, &mut acc, &a, c.a_k, &b_ct, c.b_k, s))
+                    with_scratch::<B, _>(bytes, 1 - g, |s| {
+                        m.glwe_tensor_apply_add_assign(cnv, &mut acc, &a, c.a_k, &b_ct, c.b_k, s)
+                    })
                 });
                 rec.evals(1);
                 match out {
-                    Err(msg) => fail(rec, "glwe_tensor_apply_add_assign", "panic", json!({"panic": msg})),
+                    Err(msg) => fail(
+                        rec,
+                        "glwe_tensor_apply_add_assign",
+                        "panic",
+                        json!({"panic": msg}),
+                    ),
                     Ok(()) => {
                         let prod = res.data().raw();
-                        if let Some(at) = acc.data().raw().iter().enumerate().position(|(x, v)| *v != acc0[x].wrapping_add(prod[x])) {
+                        if let Some(at) = acc
+                            .data()
+                            .raw()
+                            .iter()
+                            .enumerate()
+                            .position(|(x, v)| *v != acc0[x].wrapping_add(prod[x]))
+                        {
                             fail(
                                 rec,
                                 "glwe_tensor_apply_add_assign",
@@ -417,12 +490,27 @@ where
             if c.square {
                 let mut sq = tensor_alloc(c.n, c.b_res, c.res_size, c.rank);
                 garbage(bytes_of(sq.data_mut().raw_mut()), 1 - g);
-                let out = guarded(|| with_scratch::<B, _>(bytes, g, |s| m.glwe_tensor_square_apply(cnv, &mut sq, &a, c.a_k, s)));
+                let out = guarded(|| {
+                    with_scratch::<B, _>(bytes, g, |s| {
+                        m.glwe_tensor_square_apply(cnv, &mut sq, &a, c.a_k, s)
+                    })
+                });
                 rec.evals(1);
                 match out {
-                    Err(msg) => fail(rec, "glwe_tensor_square_apply", "panic", json!({"panic": msg})),
+                    Err(msg) => fail(
+                        rec,
+                        "glwe_tensor_square_apply",
+                        "panic",
+                        json!({"panic": msg}),
+                    ),
                     Ok(()) => {
-                        if let Some(at) = sq.data().raw().iter().zip(res.data().raw()).position(|(x, y)| x != y) {
+                        if let Some(at) = sq
+                            .data()
+                            .raw()
+                            .iter()
+                            .zip(res.data().raw())
+                            .position(|(x, y)| x != y)
+                        {
                             fail(
                                 rec,
                                 "glwe_tensor_square_apply",
@@ -439,7 +527,11 @@ where
 
 fn res_sizes(full: usize, tier: Tier) -> Vec<usize> {
     // below / equal / above the full product (a_size + b_size limbs)
-    let mut v: Vec<usize> = if tier.is_thorough() { (1..=full + 1).collect() } else { vec![1, 2, full.saturating_sub(1).max(1), full, full + 1] };
+    let mut v: Vec<usize> = if tier.is_thorough() {
+        (1..=full + 1).collect()
+    } else {
+        vec![1, 2, full.saturating_sub(1).max(1), full, full + 1]
+    };
     v.sort();
     v.dedup();
     v
@@ -452,7 +544,11 @@ fn tensor_cases<B: Bk>(tier: Tier) -> Vec<TCase> {
         for &n in tier.pick(&[8usize][..], &[8usize, 16][..]) {
             for rank in 1..=2usize {
                 for &b in &radices::<B>(tier) {
-                    let b_res_set: Vec<usize> = if tier.is_thorough() { vec![b, b - 1, b + 1] } else { vec![b, b - 1] };
+                    let b_res_set: Vec<usize> = if tier.is_thorough() {
+                        vec![b, b - 1, b + 1]
+                    } else {
+                        vec![b, b - 1]
+                    };
                     for &b_res in &b_res_set {
                         for a_size in 1..=smax {
                             for b_size in 1..=(if square { 1 } else { smax }) {
@@ -464,7 +560,11 @@ fn tensor_cases<B: Bk>(tier: Tier) -> Vec<TCase> {
                                     for (a_k, b_k) in eff_pairs(b, a_size, b_size, tier) {
                                         let b_k = if square { a_k } else { b_k };
                                         // thorough: the radix product is large; cross-radix results take a residues subset
-                                        if tier.is_thorough() && b >= 12 && b_res != b && !(a_k % b <= 1 || a_k % b == b - 1) {
+                                        if tier.is_thorough()
+                                            && b >= 12
+                                            && b_res != b
+                                            && !(a_k % b <= 1 || a_k % b == b - 1)
+                                        {
                                             continue;
                                         }
                                         // N = 16 (thorough): sizes <= 3, equal radices
@@ -594,10 +694,14 @@ where
     let mut xa = Source::new([9u8; 32]);
     let mut tsk_prep = m.alloc_tensor_key_prepared_from_infos(&tsk_layout);
     let keygen = guarded(|| {
-        with_scratch::<B, _>(m.glwe_tensor_key_encrypt_sk_tmp_bytes(&tsk_layout) + MIB, 0, |s| {
-            m.glwe_tensor_key_encrypt_sk(&mut tsk, &sk, &enc, &mut xe, &mut xa, s)
+        with_scratch::<B, _>(
+            m.glwe_tensor_key_encrypt_sk_tmp_bytes(&tsk_layout) + MIB,
+            0,
+            |s| m.glwe_tensor_key_encrypt_sk(&mut tsk, &sk, &enc, &mut xe, &mut xa, s),
+        );
+        with_scratch::<B, _>(m.prepare_tensor_key_tmp_bytes(&tsk_layout) + MIB, 0, |s| {
+            m.prepare_tensor_key(&mut tsk_prep, &tsk, s)
         });
-        with_scratch::<B, _>(m.prepare_tensor_key_tmp_bytes(&tsk_layout) + MIB, 0, |s| m.prepare_tensor_key(&mut tsk_prep, &tsk, s));
     });
     if let Err(msg) = keygen {
         rec.fail(json!({"op": "glwe_tensor_key_encrypt_sk", "backend": B::NAME, "kind": "panic", "case": c, "inner": {}, "panic": msg}));
@@ -615,9 +719,16 @@ where
                 for t in 0..c.dnum {
                     let row = vec_owned(kref.at(t, p).data());
                     let ph = glwe_phase_sec(&row, c.b_key, &sec);
-                    let ideal: Poly = sec.mono(i, j).iter().map(|x| IBig::from(*x) << (k_bits - (t + 1) * c.dsize * c.b_key)).collect();
+                    let ideal: Poly = sec
+                        .mono(i, j)
+                        .iter()
+                        .map(|x| IBig::from(*x) << (k_bits - (t + 1) * c.dsize * c.b_key))
+                        .collect();
                     let (worst, _) = max_torus_err(&ph, k_bits, &ideal, k_bits);
-                    eprintln!("key row pair {p} ({i},{j}) row {t}: max |error| = {} * 2^-{k_bits}", worst);
+                    eprintln!(
+                        "key row pair {p} ({i},{j}) row {t}: max |error| = {} * 2^-{k_bits}",
+                        worst
+                    );
                 }
                 p += 1;
             }
@@ -646,7 +757,9 @@ where
                 fill_class(b.data_mut(), c.b, 0, &mut rng);
                 let bytes = m.glwe_tensor_apply_tmp_bytes(&t, &a, &b) + MIB;
                 let out = guarded(|| {
-                    with_scratch::<B, _>(bytes, g, |s| m.glwe_tensor_apply(c.b, &mut t, &a, a_size * c.b, &b, a_size * c.b, s))
+                    with_scratch::<B, _>(bytes, g, |s| {
+                        m.glwe_tensor_apply(c.b, &mut t, &a, a_size * c.b, &b, a_size * c.b, s)
+                    })
                 });
                 if out.is_err() {
                     continue; // judged by the tensor family
@@ -669,7 +782,11 @@ where
             garbage(bytes_of(res.data_mut().raw_mut()), g);
             let bytes = m.glwe_tensor_relinearize_tmp_bytes(&res, &t, &tsk_layout) + MIB;
             let size = tsk_prep.size();
-            let out = guarded(|| with_scratch::<B, _>(bytes, g, |s| m.glwe_tensor_relinearize(&mut res, &t, &tsk_prep, size, s)));
+            let out = guarded(|| {
+                with_scratch::<B, _>(bytes, g, |s| {
+                    m.glwe_tensor_relinearize(&mut res, &t, &tsk_prep, size, s)
+                })
+            });
             rec.evals(1);
             let mut fail = |rec: &mut Rec, kind: &str, extra: Value| {
                 let sig = kind.to_string();
@@ -688,7 +805,11 @@ where
                 continue;
             }
             // ---- worst-case bound (R9), everything scaled by 2^W
-            let w = t_bits.max(k_bits).max(r_bits).max((c.dnum * c.dsize + 2) * c.b_key) + 64;
+            let w = t_bits
+                .max(k_bits)
+                .max(r_bits)
+                .max((c.dnum * c.dsize + 2) * c.b_key)
+                + 64;
             let one = |bits: usize| -> IBig { IBig::from(1) << (w - bits) }; // 2^-bits
             let s_norm = IBig::from(sec.s_norm());
             let mut bound = IBig::from(0);
@@ -706,14 +827,18 @@ where
             //     BOUND_XE * 2^-k_enc, amplified by 2^(di*b_key) with di = dsize-1-(m mod dsize)
             for mm in 0..used {
                 let di = c.dsize - 1 - (mm % c.dsize);
-                let term: IBig = (IBig::from(pairs as u64 * c.n as u64 * BOUND_XE) * IBig::from(dmax)) << (di * c.b_key);
+                let term: IBig = (IBig::from(pairs as u64 * c.n as u64 * BOUND_XE)
+                    * IBig::from(dmax))
+                    << (di * c.b_key);
                 bound += term * one(k_bits);
             }
             // (3) dsize >= 3: the partial products of the low digits are accumulated without their last dsize-di-2 limbs
             if c.dsize >= 3 {
                 for di in 0..c.dsize - 2 {
                     let cut = c.key_size - (c.dsize - di - 2);
-                    let lost: IBig = (IBig::from(2 * pairs as u64 * c.dnum as u64 * c.n as u64) * IBig::from(dmax)) << (c.b_key - 1);
+                    let lost: IBig = (IBig::from(2 * pairs as u64 * c.dnum as u64 * c.n as u64)
+                        * IBig::from(dmax))
+                        << (c.b_key - 1);
                     bound += lost * one((cut + 1) * c.b_key) * &s_norm;
                 }
             }
@@ -734,12 +859,16 @@ where
             if worst > bound {
                 // classification: does the violation disappear when the scratch arena is zero-filled?
                 let mut res0 = glwe_alloc(c.n, c.b_res, c.res_size, c.rank);
-                let zero_ok = guarded(|| with_scratch::<B, _>(bytes, 2, |s| m.glwe_tensor_relinearize(&mut res0, &t, &tsk_prep, size, s)))
-                    .map(|_| {
-                        let got0 = glwe_phase_sec(res0.data(), c.b_res, &sec);
-                        max_torus_err(&got0, r_bits, &wv, w).0 <= bound
+                let zero_ok = guarded(|| {
+                    with_scratch::<B, _>(bytes, 2, |s| {
+                        m.glwe_tensor_relinearize(&mut res0, &t, &tsk_prep, size, s)
                     })
-                    .unwrap_or(false);
+                })
+                .map(|_| {
+                    let got0 = glwe_phase_sec(res0.data(), c.b_res, &sec);
+                    max_torus_err(&got0, r_bits, &wv, w).0 <= bound
+                })
+                .unwrap_or(false);
                 fail(
                     rec,
                     "noise_too_large",
@@ -748,7 +877,11 @@ where
                 );
             } else {
                 // how much of the bound is used (diagnostic)
-                let used_pct = if bound > IBig::from(0) { approx_units(&(worst * IBig::from(1000)), 0) / approx_units(&bound, 0) } else { 0.0 };
+                let used_pct = if bound > IBig::from(0) {
+                    approx_units(&(worst * IBig::from(1000)), 0) / approx_units(&bound, 0)
+                } else {
+                    0.0
+                };
                 if used_pct > 500.0 {
                     rec.add("error_above_half_of_bound", 1);
                 }
@@ -767,7 +900,11 @@ fn relin_cases<B: Bk>(tier: Tier) -> Vec<RCase> {
         for rank in 1..=2usize {
             for &b_key in &keys {
                 // tensor radix: the key's, and (cross-radix path) a smaller and a larger one
-                let bts: Vec<usize> = if tier.is_thorough() { vec![b_key, b_key - 1, b_key + 3] } else { vec![b_key, b_key - 1] };
+                let bts: Vec<usize> = if tier.is_thorough() {
+                    vec![b_key, b_key - 1, b_key + 3]
+                } else {
+                    vec![b_key, b_key - 1]
+                };
                 for &b in &bts {
                     for dsize in 1..=3usize {
                         for t_size in 1..=4usize {
@@ -782,9 +919,19 @@ fn relin_cases<B: Bk>(tier: Tier) -> Vec<RCase> {
                                 // key long enough that its error stays below the last decomposed digit
                                 let key_size = dnum * dsize + dsize + 1;
                                 let rs: Vec<(usize, usize)> = if tier.is_thorough() {
-                                    vec![(b_key, 1), (b_key, t_size), (b_key, key_size), (b_key - 2, t_size + 1), (b, t_size)]
+                                    vec![
+                                        (b_key, 1),
+                                        (b_key, t_size),
+                                        (b_key, key_size),
+                                        (b_key - 2, t_size + 1),
+                                        (b, t_size),
+                                    ]
                                 } else {
-                                    vec![(b_key, t_size), (b_key - 2, t_size + 1), (b_key, key_size)]
+                                    vec![
+                                        (b_key, t_size),
+                                        (b_key - 2, t_size + 1),
+                                        (b_key, key_size),
+                                    ]
                                 };
                                 for (b_res, res_size) in rs {
                                     if !tier.is_thorough() && (dsize == 3 && b != b_key) {
@@ -813,7 +960,11 @@ fn relin_cases<B: Bk>(tier: Tier) -> Vec<RCase> {
     }
     out.sort_by_key(|c| format!("{:?}", c));
     out.dedup_by_key(|c| format!("{:?}", c));
-    out.sort_by_key(|c| (c.n, c.rank, c.t_size, c.dsize, c.dnum, c.b_key, c.b, c.res_size, c.b_res));
+    out.sort_by_key(|c| {
+        (
+            c.n, c.rank, c.t_size, c.dsize, c.dnum, c.b_key, c.b, c.res_size, c.b_res,
+        )
+    });
     out
 }
 
@@ -854,8 +1005,13 @@ pub struct MCase {
     pub val: usize,
 }
 
-pub fn exec_mul<B: Bk>(c: &MCase, only: Option<(usize, usize)>, seed: u64, tier: Tier, rec: &mut Rec)
-where
+pub fn exec_mul<B: Bk>(
+    c: &MCase,
+    only: Option<(usize, usize)>,
+    seed: u64,
+    tier: Tier,
+    rec: &mut Rec,
+) where
     Module<B>: HalAll<B> + CoreAll<B>,
     Scratch<B>: ScratchTakeCore<B>,
 {
@@ -897,7 +1053,15 @@ where
     let l = a_bits + p_bits;
     let r_bits = c.res_size * c.b_res;
     // exact operand values; constants carry no effective precision
-    let ac: Vec<Poly> = (0..cols).map(|i| if is_const { col_vals(a.data(), i, c.b) } else { masked_col(a.data(), i, c.b, c.a_k) }).collect();
+    let ac: Vec<Poly> = (0..cols)
+        .map(|i| {
+            if is_const {
+                col_vals(a.data(), i, c.b)
+            } else {
+                masked_col(a.data(), i, c.b, c.a_k)
+            }
+        })
+        .collect();
     let pv: Poly = if is_const {
         let mut v = pzero(c.n);
         v[0] = pvc_model::torus::value_scaled(&cst, c.b);
@@ -921,7 +1085,11 @@ where
         _ => "glwe_mul_const_assign",
     };
     let mut reported: Vec<String> = vec![];
-    for cnv in offsets(cmax(c.res_size, c.a_size, c.p_size, c.b), c.b, if only.is_some() { Tier::Thorough } else { tier }) {
+    for cnv in offsets(
+        cmax(c.res_size, c.a_size, c.p_size, c.b),
+        c.b,
+        if only.is_some() { Tier::Thorough } else { tier },
+    ) {
         for g in 0..2usize {
             if let Some(o) = only {
                 if o != (cnv, g) {
@@ -951,11 +1119,15 @@ where
             let out = guarded(|| match c.op.as_str() {
                 "plain" => {
                     let bytes = m.glwe_mul_plain_tmp_bytes(&res, &a, &pt) + MIB;
-                    with_scratch::<B, _>(bytes, g, |s| m.glwe_mul_plain(cnv, &mut res, &a, c.a_k, &pt, c.p_k, s))
+                    with_scratch::<B, _>(bytes, g, |s| {
+                        m.glwe_mul_plain(cnv, &mut res, &a, c.a_k, &pt, c.p_k, s)
+                    })
                 }
                 "plain_assign" => {
                     let bytes = m.glwe_mul_plain_tmp_bytes(&res, &res, &pt) + MIB;
-                    with_scratch::<B, _>(bytes, g, |s| m.glwe_mul_plain_assign(cnv, &mut res, c.a_k, &pt, c.p_k, s))
+                    with_scratch::<B, _>(bytes, g, |s| {
+                        m.glwe_mul_plain_assign(cnv, &mut res, c.a_k, &pt, c.p_k, s)
+                    })
                 }
                 "const" => {
                     let bytes = m.glwe_mul_const_tmp_bytes(&res, &a, cst.len()) + MIB;
@@ -963,7 +1135,9 @@ where
                 }
                 _ => {
                     let bytes = m.glwe_mul_const_tmp_bytes(&res, &res, cst.len()) + MIB;
-                    with_scratch::<B, _>(bytes, g, |s| m.glwe_mul_const_assign(cnv, &mut res, &cst, s))
+                    with_scratch::<B, _>(bytes, g, |s| {
+                        m.glwe_mul_const_assign(cnv, &mut res, &cst, s)
+                    })
                 }
             });
             rec.evals(1);
@@ -972,14 +1146,22 @@ where
                 continue;
             }
             let exact = r_bits + cnv >= l;
-            let tol: IBig = if exact { IBig::from(0) } else { IBig::from(1) + &g_units };
+            let tol: IBig = if exact {
+                IBig::from(0)
+            } else {
+                IBig::from(1) + &g_units
+            };
             let mut verdict: Option<ColVerdict> = None;
             for i in 0..cols {
                 let got = col_vals(res.data(), i, c.b_res);
                 let want = pshl(&want_cols[i], cnv);
                 if let Some((err, at)) = compare(&got, r_bits, &want, l, &tol) {
                     verdict = Some(ColVerdict {
-                        regime: if exact { Regime::Exact } else { Regime::Truncating },
+                        regime: if exact {
+                            Regime::Exact
+                        } else {
+                            Regime::Truncating
+                        },
                         err_units: err,
                         tol_units: approx_units(&tol, 0),
                         col: i,
@@ -995,7 +1177,11 @@ where
                 let tol_p: IBig = &tol * IBig::from(sec.s_norm());
                 if let Some((err, at)) = compare(&got, r_bits, &want, l, &tol_p) {
                     verdict = Some(ColVerdict {
-                        regime: if exact { Regime::Exact } else { Regime::Truncating },
+                        regime: if exact {
+                            Regime::Exact
+                        } else {
+                            Regime::Truncating
+                        },
                         err_units: err,
                         tol_units: approx_units(&tol_p, 0),
                         col: 0,
@@ -1006,7 +1192,11 @@ where
             }
             match verdict {
                 Some(v) => {
-                    let kind = if v.regime == Regime::Exact { "wrong_value" } else { "noise_too_large" };
+                    let kind = if v.regime == Regime::Exact {
+                        "wrong_value"
+                    } else {
+                        "noise_too_large"
+                    };
                     fail(
                         rec,
                         kind,
@@ -1040,10 +1230,17 @@ fn mul_cases<B: Bk>(tier: Tier) -> Vec<MCase> {
                     for &b_res in &b_res_set {
                         for a_size in 1..=smax {
                             for p_size in 1..=(if is_const { 3 } else { smax }) {
-                                let sizes: Vec<usize> = if assign { vec![a_size] } else { res_sizes(a_size + p_size, tier) };
+                                let sizes: Vec<usize> = if assign {
+                                    vec![a_size]
+                                } else {
+                                    res_sizes(a_size + p_size, tier)
+                                };
                                 for res_size in sizes {
-                                    let effs: Vec<(usize, usize)> =
-                                        if is_const { vec![(a_size * b, p_size * b)] } else { eff_pairs(b, a_size, p_size, tier) };
+                                    let effs: Vec<(usize, usize)> = if is_const {
+                                        vec![(a_size * b, p_size * b)]
+                                    } else {
+                                        eff_pairs(b, a_size, p_size, tier)
+                                    };
                                     for (a_k, p_k) in effs {
                                         if b_res != b && a_k % b != 1 && a_k % b != 0 {
                                             continue;
@@ -1122,7 +1319,9 @@ pub fn replay(run: &mut Run, d: &Value) {
                     (Some(p), Some(g)) => Some((p as usize, g as usize)),
                     _ => None,
                 };
-                run.single(&fam, "replay", |rec| exec_tensor::<$B>(&c, only, seed, Tier::Thorough, rec));
+                run.single(&fam, "replay", |rec| {
+                    exec_tensor::<$B>(&c, only, seed, Tier::Thorough, rec)
+                });
             } else if fam.starts_with("relinearize") {
                 let c: RCase = serde_json::from_value(d["case"].clone()).unwrap();
                 let only = match (i["src"].as_u64(), i["g"].as_u64()) {
@@ -1136,7 +1335,9 @@ pub fn replay(run: &mut Run, d: &Value) {
                     (Some(p), Some(g)) => Some((p as usize, g as usize)),
                     _ => None,
                 };
-                run.single(&fam, "replay", |rec| exec_mul::<$B>(&c, only, seed, Tier::Thorough, rec));
+                run.single(&fam, "replay", |rec| {
+                    exec_mul::<$B>(&c, only, seed, Tier::Thorough, rec)
+                });
             }
         }};
     }
